@@ -440,6 +440,9 @@ def absolute_padding_rule(repo: Repo, rep: Report, rid: str) -> None:
 
 
 def run(repo: Repo, rep: Report, tier: str) -> None:
+    from .compiled import compiled_fold_rule, shape_rule
+
+    compiled_fold_rule(repo, rep, "C09.R11", tier)
     relative_seek_rule(repo, rep, "C09.R1")
     restore_rule(repo, rep, "C09.R2")
     funnel_rule(repo, rep, "C09.R3")
@@ -456,7 +459,7 @@ def run(repo: Repo, rep: Report, tier: str) -> None:
 
     call_shortcut_rule(repo, rep, "C09.R7")
     leb128_rule(repo, rep, "C09.R8")
-    absolute_padding_rule(repo, rep, "C09.R10")
+    shape_rule(repo, rep, tier, absolute_padding_rule, "C09.R10")
 
 
 
